@@ -219,15 +219,11 @@ Lemma I3_el_body node n1 n2 a b k :
 Proof.
   intros Hn Hnil H. unfold el_body. rewrite tree_events_eq.
   set (j := nvoid (flat_map (tree_events c) (an_children node))) in *.
-  assert (Hun : Inv3 (el_unnamed c1 node n1 a) (el_unnamed c2 node n2 b)
-                     (k + nvoid (if truthy_l (an_value node) then flat_map (tree_events c) (an_children node) else []))).
+  assert (Hun : Inv3 (el_unnamed c1 node n1 a) (el_unnamed c2 node n2 b) (k + j)).
   { unfold el_unnamed. pose proof (I3_el_snippet node n1 n2 j a b k Hn H) as Hs.
     destruct (el_snippet c1 node n1 a) eqn:E1; destruct (el_snippet c2 node n2 b) eqn:E2; cbn [I3O] in Hs; try contradiction.
-    - assert (Tv : truthy_l (an_value node) = true).
-      { unfold el_snippet in E1. destruct (an_value node) as [[|? ?]|]; try discriminate. reflexivity. }
-      rewrite Tv. exact Hs.
-    - destruct (an_value node) as [[|v0 v]|]; cbn [truthy_l nvoid]; try (rewrite Nat.add_0_r; exact H).
-      apply Hn, I3_push_tokens, H. }
+    - exact Hs.
+    - apply Hn. destruct (an_value node) as [[|v0 v]|]; try exact H. apply I3_push_tokens, H. }
   destruct (an_name node) as [[|x nm]|]; try exact Hun.
   unfold el_named.
   change (an_self node && match an_children node with [] => true | _ => false end && negb (truthy_l (an_value node)))
